@@ -46,3 +46,5 @@ json.dump({"breaks_property":pid,"name":name,"demo_crate":crate,
  "checks_run_against_it":{r.split(':')[0]:("VIOLATION reported" if r.split(':')[1]!='0' else "not detected") for r in results.split()},
  "commands":["git -C /repo apply patch.diff; bin/check %s; git -C /repo reset -q --hard HEAD"%pid]},open(out+'/meta.json','w'),indent=1)
 PY
+# refresh the evidence files on the restored tree (a red run must never be the committed evidence)
+for p in $PID $OTHERS; do bin/check $p > /dev/null 2>&1; done
